@@ -30,6 +30,13 @@ pub struct BOp {
     op: String,
     port: usize,
     prog: i64,
+    /// for a query: number of replies read from the reply iterator before it is dropped (-1: all of them)
+    #[serde(default = "minus_one")]
+    take: i64,
+}
+
+fn minus_one() -> i64 {
+    -1
 }
 
 #[derive(Deserialize, Clone, Debug)]
@@ -174,10 +181,16 @@ impl BModel {
                     ev(&sh, json!({"ev": "ss", "m": self.name, "n": n, "op": "query", "port": op.port, "prog": op.prog}));
                     let payload = Payload { prog: op.prog, s: self.name.clone(), n, c: 0 };
                     let replies: Vec<i64> = match &mut self.ports[op.port - 1] {
-                        Port::Req(r) => r.send(payload).await.collect(),
+                        Port::Req(r) => {
+                            if op.take < 0 {
+                                r.send(payload).await.collect()
+                            } else {
+                                r.send(payload).await.take(op.take as usize).collect()
+                            }
+                        }
                         Port::Out(_) => panic!("harness: query on an output port"),
                     };
-                    ev(&sh, json!({"ev": "sd", "m": self.name, "n": n, "replies": replies}));
+                    ev(&sh, json!({"ev": "sd", "m": self.name, "n": n, "replies": replies, "take": op.take}));
                 }
                 "panic" => {
                     ev(&sh, json!({"ev": "ss", "m": self.name, "n": self.n, "op": "panic", "port": 0, "prog": 0}));
